@@ -248,6 +248,8 @@ class AbstractHasAxes(AbstractHasMetadata):
             newdims = [newdims.get(old, old) for old in self.dims]
         if len(set(newdims)) != len(newdims):
             raise ValueError("dimension names must be distinct, got: {}".format(newdims))
+        if not all(isinstance(name, str) and name for name in newdims):
+            raise ValueError("dimension names must be non-empty strings, got: {}".format(newdims)) # before any axis is renamed
         # rename by position: a new name may be the current name of another axis
         for i, newname in enumerate(newdims):
             self.axes[i].name = newname
